@@ -865,6 +865,12 @@ class Gen(object):
         sh = tuple(np.asarray(o.val).shape)
         ssh = tuple(np.asarray(so.val).shape)
         op = {'op': 'setitem_from', 'slot': k, 'src': self.cands().index(isrc)}
+        if len(sh) == 2 and len(ssh) == 1 and ssh[0] == sh[0] and r.random() < 0.5:
+            op['index'] = [['sl', None, None, None], r.randrange(sh[1])]     # a column: dst[:, j] = src
+            return op
+        if len(sh) == 2 and len(ssh) == 1 and ssh[0] == sh[1] and r.random() < 0.5:
+            op['index'] = r.randrange(sh[0])                                  # a row: dst[i] = src
+            return op
         if ssh:
             # element (or row) of the source into an element (or row) of the destination
             sidx = [r.randrange(n) for n in ssh]
@@ -1144,6 +1150,7 @@ class Gen(object):
             add(5, self.g_set_from)
             add(4, self.g_conv_equal)
             add(4, self.g_setitem_from)
+            add(2, self.g_getitem)       # views (rows, columns, stepped and reversed slices) as sources
             add(3, lambda: self.g_config_set(['overflow', 'rounding']))
             add(2, self.g_call)
             add(1, self.g_big_store)     # sources that went through the Python-integer store path
